@@ -307,7 +307,7 @@ class Filler(WidgetDecoration[WrappedWidget]):
             return True
 
         top, bottom = self.filler_values(size, True)
-        if row < top or row >= maxcol - bottom:
+        if row < top or row >= maxrow - bottom:
             return False
 
         if self.height_type == WHSettings.PACK:
